@@ -9,6 +9,7 @@ require (
 	github.com/pkg/errors v0.9.1
 	github.com/sirupsen/logrus v1.6.0
 	github.com/xtaci/kcp-go/v5 v5.6.1
+	golang.org/x/net v0.0.0-20200822124328-c89045814202
 )
 
 require (
@@ -30,7 +31,6 @@ require (
 	github.com/youmark/pkcs8 v0.0.0-20200520070018-fad002e585ce // indirect
 	go.chromium.org/luci v0.0.0-20201018155654-3aac261c05da // indirect
 	golang.org/x/crypto v0.0.0-20200728195943-123391ffb6de // indirect
-	golang.org/x/net v0.0.0-20200822124328-c89045814202 // indirect
 	golang.org/x/sys v0.0.0-20200808120158-1030fc2bf1d9 // indirect
 )
 
